@@ -1,5 +1,10 @@
 package props
 
-import "regexp"
+import (
+	"regexp"
+	"runtime"
+)
 
 var digitsRe = regexp.MustCompile(`\d+`)
+
+func runtimeGosched() { runtime.Gosched() }
